@@ -185,7 +185,7 @@ def gen_kwargs(rng, kind):
 
 
 def gen_scn(rng, idx, params):
-    kind = T.ALL_KINDS[idx % len(T.ALL_KINDS)]
+    kind = cm.pick_kind(rng, T.ALL_KINDS, T.ALL_KINDS[idx % len(T.ALL_KINDS)])
     kw, need = gen_kwargs(rng, kind)
     size = params.get("size", 60)
     n = rng.randint(need, need + (30 if size <= 100 else size // 2)) if rng.random() < 0.85 else rng.randint(0, size)
